@@ -137,7 +137,7 @@ def hiddenUntouched (prev next : Option String) (mayAppend : Bool) (flagMayChang
       let nks := if nk == "-" then [] else splitC nk ";"
       pq == nq && (flagMayChange || pt == nt) &&
         (nks == pks || (mayAppend && nks.length == pks.length + 1 && nks.take pks.length == pks))
-    | _, _ => false
+    | _, _ => true      -- the snapshot has another form (`?`): nothing to judge here; the correspondence reports it
   | _, _ => true
 
 /-- Parse the tokens of an observation line (after the leading `I`). -/
